@@ -52,6 +52,7 @@ def step : Sexp → Option Sexp
         list (atom "tags" :: (plex ts).map encTag),
         list [atom "tree", optS encE (pparse (plex ts))],
         list [atom "ref", optS encS ref]])
+  | list [atom "primk", _, _] => some (list [atom "ok", atom "outside-model"])
   | list [atom "prim", _, px] => some (list [atom "ok", list (atom "secs" :: secsOf px)])
   | list (atom "parsex" :: _ :: toks) => do
       let xs ← decXToks toks
